@@ -19,7 +19,8 @@ ASSUMPTIONS = [
 REQUIRED = {"eval.post": 1000, "checked_results": 200, "fun_none_runs": 20,
             "history_checked": 50}
 MIN_NONTRIVIAL = {"quick": 20, "thorough": 100}
-PLAN = [("budget", 1200, 16000), ("history", 500, 6000), ("general", 300, 4000), ("cross", 300, 6000)]
+PLAN = [("budget", 1200, 16000), ("history", 500, 6000), ("general", 300, 4000), ("soc", 250, 3000),
+        ("cross", 300, 6000)]
 
 
 def cases(tier, seed):
@@ -70,9 +71,52 @@ def make_spec(case):
     return spec
 
 
+def soc_iteration_spec(case):
+    """Dry run of a problem rich in second-order-correction steps, recording
+    at which ITERATION each correction was taken; the rerun places maxiter
+    exactly there (and, in other cases, maxfev on the corrected evaluation)."""
+    from checks import c01
+    rng = e2e.rng_of(ID, case)
+    spec = c01.make_spec({"id": case["id"], "fam": "soc", "idx": case["idx"],
+                          "seed": case["seed"]})
+    state = {"it": 0, "soc_it": [], "soc_ev": []}
+
+    def on_tr(run, tr, args):
+        state["it"] += 1
+
+    def on_soc(run, tr, args, out):
+        if np.linalg.norm(np.asarray(out, dtype=float)) > 0:
+            state["soc_it"].append(state["it"])
+            state["soc_ev"].append(len(run.evals) + 1)
+
+    def setup(r, rec):
+        r.on("step.tr.pre", on_tr)
+        r.on("step.soc.post", on_soc)
+
+    dry = mrun.run(spec, setup=setup)
+    if dry.res is None or not state["soc_it"]:
+        return None
+    j = int(rng.integers(len(state["soc_it"])))
+    spec = dict(spec)
+    spec["options"] = dict(spec["options"])
+    if rng.random() < 0.6:
+        spec["options"]["maxiter"] = int(state["soc_it"][j])
+        spec["options"]["maxfev"] = 10 ** 4
+        spec["budget_pos"] = "maxiter@soc"
+    else:
+        spec["options"]["maxfev"] = int(state["soc_ev"][j])
+        spec["budget_pos"] = "maxfev@soc"
+    return spec
+
+
 def run_case(case):
     if case["fam"] == "cross":
         spec, _src = e2e.cross_spec(ID, case)
+    elif case["fam"] == "soc":
+        spec = soc_iteration_spec(case)
+        if spec is None:
+            return e2e.record(case, [], tags=["fam:soc", "no_soc"],
+                              skipped=True)
     else:
         spec = make_spec(case)
     rec = mrun.run(spec)
